@@ -74,8 +74,12 @@ Proof.
 Qed.
 
 (* autowrite (xaw != 0) on a buffer reported modified: a buffer WITH a path is handed to lbuf_save(b->lb, 0, -1, b->path, 0, b->mtime) -- the
-   oracle -- and bufs_modified answers whether THAT reported an error (a non-NULL message); a buffer whose path is "" is treated as with
-   autowrite off *)
+   oracle.  A message: bufs_modified answers 1 and stores nothing (the memory is the save's).  NULL (since 37c81b2): lbuf_saved(b->lb, 0)
+   runs -- the translated function, on the memory the save left --, then mtime(b->path) -- an oracle -- is stored into b->mtime (cell 40 of
+   the slot, nothing else of the table changes) and bufs_modified answers 0.  A buffer whose path is "" is treated as with autowrite off *)
+Definition set_cs_mtime (s : cslot) (x : Z) := mkcs (cs_ft s) (cs_path s) (cs_lb s) (cs_row s) (cs_off s) (cs_top s) (cs_left s) (cs_id s) (cs_td s) x.
+Lemma x_mtime_none : nth_error cprog X_mtime = None.
+Proof. reflexivity. Qed.
 Theorem tr_bufs_modified_aw ext m t i bl blk lb msg a pb p m2 d fuel : tab_at m t -> tab_ok t -> (i < 16)%nat ->
   cs_lb (nths t i) = VPtr bl 0 -> lbuf_rep m bl blk lb -> lbuf_ints lb -> useq lb < 2147483647 ->
   snd (lbuf_modified lb) = true -> bl <> G_xaw -> bl <> G_bufs -> cell_at m G_xaw a -> int_ok a -> a <> 0 -> ptr_val msg ->
@@ -86,7 +90,13 @@ Theorem tr_bufs_modified_aw ext m t i bl blk lb msg a pb p m2 d fuel : tab_at m 
           callx ext cprog fuel (S (S (S d))) F_bufs_modified [VInt (Z.of_nat i); msg] m = Ok (VInt 1, m2)
   | _ :: _ => forall r, ptr_val r ->
           ext X_lbuf_save [VPtr bl 0; VInt 0; VInt (-1); VPtr pb 0; VInt 0; VInt (wrap I64 (cs_mtime (nths t i)))] m1 = Ok (r, m2) ->
-          callx ext cprog fuel (S (S (S d))) F_bufs_modified [VInt (Z.of_nat i); msg] m = Ok (VInt (b2z (negb (is_null r))), m2)
+          if is_null r
+          then forall u3 m3 ts m4, tab_at m2 t ->
+                 callx ext cprog fuel (S (S d)) F_lbuf_saved [VPtr bl 0; VInt 0] m2 = Ok (u3, m3) -> tab_at m3 t ->
+                 ext X_mtime [VPtr pb 0] m3 = Ok (VInt ts, m4) -> tab_at m4 t ->
+                 callx ext cprog fuel (S (S (S d))) F_bufs_modified [VInt (Z.of_nat i); msg] m
+                 = Ok (VInt 0, upd m4 G_bufs (tab_cells (upd t i (set_cs_mtime (nths t i) (wrap I64 ts)))))
+          else callx ext cprog fuel (S (S (S d))) F_bufs_modified [VInt (Z.of_nat i); msg] m = Ok (VInt 1, m2)
   end.
 Proof.
   intros Hm Ht Hi Hlb R Hints Hmax Hfl Hna Hnb Haw Ia Ha0 Hmsg Hpath Hp Np Hpb m1. pose proof Ht as [Hl Hs].
@@ -113,18 +123,46 @@ Proof.
     destruct Hmsg as [E|[b [o E]]]; rewrite E in *; cbn [is_null] in Hshow; xstep.
     + rewrite Hshow. reflexivity.
     + destruct Hshow as [u Hshow]. rewrite callx_S, x_ex_show_none, Hshow. xstep. reflexivity.
-  - intros r Hr Hsave. apply Hhead. cbn [fn_body cf_bufs_modified]. xstep.
-    rewrite (load_cell _ G_xaw a Haw1). xstep. rewrite (wrap_int_ok a Ia). destruct (Z.eqb_spec a 0) as [E|_]; [contradiction|]. cbn [negb]. xstep.
-    slot_off i 0%nat. rewrite (tab_load m1 t i 0 (VPtr pb 0) _ Hm1 Hs) by (try lia; cbn [cs_tail nth_error]; congruence). xstep.
-    replace (0 + 1 * 0) with (Z.of_nat 0) by reflexivity. rewrite (load_str m1 pb (c :: p') _ 0 Hp1) by (try reflexivity; cbn [length]; lia). xstep.
-    cbn [nthb nth]. inversion Np as [|? ? [Hc0 Hc256] _]; subst.
-    rewrite (sx_eq0 c Hc256). destruct (N.eqb_spec c 0) as [E|_]; [lia|]. cbn [negb]. xstep.
-    slot_off i 1%nat. rewrite (tab_load m1 t i 1 (VPtr bl 0) _ Hm1 Hs) by (try lia; cbn [cs_tail nth_error]; congruence). xstep.
-    change (chk I32 (- (1))) with (@Ok Z (-1)). xstep.
-    slot_off i 0%nat. rewrite (tab_load m1 t i 0 (VPtr pb 0) _ Hm1 Hs) by (try lia; cbn [cs_tail nth_error]; congruence). xstep.
-    slot_off i 8%nat. rewrite (tab_load m1 t i 8 (VInt (cs_mtime (nths t i))) _ Hm1 Hs) by (try lia; reflexivity). xstep.
-    rewrite callx_S, x_lbuf_save_none, Hsave. xstep.
-    destruct Hr as [E|[b [o E]]]; rewrite E; reflexivity.
+  - intros r Hr Hsave.
+    assert (Hpre : forall k,
+      match exec (callx ext cprog fuel (S (S d))) fuel
+        (match fn_body cf_bufs_modified with SSeq _ (SSeq _ r) => r | _ => SSkip end)
+        (mkst [VInt (Z.of_nat i); msg; VPtr G_bufs (0 + 41 * Z.of_nat i)] m1) with
+      | OReturn v st => Ok (v, memm st) | ONormal st => Ok (VUndef, memm st) | OErr x => Err x | _ => Err EShape end = k ->
+      callx ext cprog fuel (S (S (S d))) F_bufs_modified [VInt (Z.of_nat i); msg] m = k) by (intros k Hk; apply Hhead; exact Hk).
+    destruct Hr as [E|[b [o E]]]; rewrite E in *; cbn [is_null].
+    + (* the save answered NULL *)
+      intros u3 m3 ts m4 Hm2 Hsaved Hm3 Hmt Hm4. apply Hpre. cbn [fn_body cf_bufs_modified]. xstep.
+      rewrite (load_cell _ G_xaw a Haw1). xstep. rewrite (wrap_int_ok a Ia). destruct (Z.eqb_spec a 0) as [E0|_]; [contradiction|]. cbn [negb]. xstep.
+      slot_off i 0%nat. rewrite (tab_load m1 t i 0 (VPtr pb 0) _ Hm1 Hs) by (try lia; cbn [cs_tail nth_error]; congruence). xstep.
+      replace (0 + 1 * 0) with (Z.of_nat 0) by reflexivity. rewrite (load_str m1 pb (c :: p') _ 0 Hp1) by (try reflexivity; cbn [length]; lia). xstep.
+      cbn [nthb nth]. inversion Np as [|? ? [Hc0 Hc256] _]; subst.
+      rewrite (sx_eq0 c Hc256). destruct (N.eqb_spec c 0) as [E1|_]; [lia|]. cbn [negb]. xstep.
+      slot_off i 1%nat. rewrite (tab_load m1 t i 1 (VPtr bl 0) _ Hm1 Hs) by (try lia; cbn [cs_tail nth_error]; congruence). xstep.
+      change (chk I32 (- (1))) with (@Ok Z (-1)). xstep.
+      slot_off i 0%nat. rewrite (tab_load m1 t i 0 (VPtr pb 0) _ Hm1 Hs) by (try lia; cbn [cs_tail nth_error]; congruence). xstep.
+      slot_off i 8%nat. rewrite (tab_load m1 t i 8 (VInt (cs_mtime (nths t i))) _ Hm1 Hs) by (try lia; reflexivity). xstep.
+      rewrite callx_S, x_lbuf_save_none, Hsave. xstep.
+      let v := eval cbv in (ptr_cmp ONe (VInt 0) (VInt 0)) in change (ptr_cmp ONe (VInt 0) (VInt 0)) with v. xstep.
+      slot_off i 1%nat. rewrite (tab_load m2 t i 1 (VPtr bl 0) _ Hm2 Hs) by (try lia; cbn [cs_tail nth_error]; congruence). xstep.
+      rewrite Hsaved. xstep.
+      slot_off i 0%nat. rewrite (tab_load m3 t i 0 (VPtr pb 0) _ Hm3 Hs) by (try lia; cbn [cs_tail nth_error]; congruence). xstep.
+      rewrite callx_S, x_mtime_none, Hmt. xstep.
+      rewrite (tab_store_fld m4 t i 8 (VInt (wrap I64 ts)) _ (set_cs_mtime (nths t i) (wrap I64 ts)) Hm4 Ht Hi) by (try lia; reflexivity).
+      xstep. reflexivity.
+    + (* the save answered a message *)
+      apply Hpre. cbn [fn_body cf_bufs_modified]. xstep.
+      rewrite (load_cell _ G_xaw a Haw1). xstep. rewrite (wrap_int_ok a Ia). destruct (Z.eqb_spec a 0) as [E0|_]; [contradiction|]. cbn [negb]. xstep.
+      slot_off i 0%nat. rewrite (tab_load m1 t i 0 (VPtr pb 0) _ Hm1 Hs) by (try lia; cbn [cs_tail nth_error]; congruence). xstep.
+      replace (0 + 1 * 0) with (Z.of_nat 0) by reflexivity. rewrite (load_str m1 pb (c :: p') _ 0 Hp1) by (try reflexivity; cbn [length]; lia). xstep.
+      cbn [nthb nth]. inversion Np as [|? ? [Hc0 Hc256] _]; subst.
+      rewrite (sx_eq0 c Hc256). destruct (N.eqb_spec c 0) as [E1|_]; [lia|]. cbn [negb]. xstep.
+      slot_off i 1%nat. rewrite (tab_load m1 t i 1 (VPtr bl 0) _ Hm1 Hs) by (try lia; cbn [cs_tail nth_error]; congruence). xstep.
+      change (chk I32 (- (1))) with (@Ok Z (-1)). xstep.
+      slot_off i 0%nat. rewrite (tab_load m1 t i 0 (VPtr pb 0) _ Hm1 Hs) by (try lia; cbn [cs_tail nth_error]; congruence). xstep.
+      slot_off i 8%nat. rewrite (tab_load m1 t i 8 (VInt (cs_mtime (nths t i))) _ Hm1 Hs) by (try lia; reflexivity). xstep.
+      rewrite callx_S, x_lbuf_save_none, Hsave. xstep.
+      let v := eval cbv in (ptr_cmp ONe (VPtr b o) (VInt 0)) in change (ptr_cmp ONe (VPtr b o) (VInt 0)) with v. xstep. reflexivity.
 Qed.
 
 (* ------------------------------------------------------------------ the buffers behind the table: one struct lbuf per occupied slot *)
